@@ -293,11 +293,11 @@ def c07_plan(tier, seed):
     g = jobs("os-debug", "c07", 14 if q else 34, c07_env, {"cases": 10 if q else 100, "global": 1}, timeout=1800)
     out += g[-2:]
     sw = jobs("os-debug", "c07", 40, None, {"cases": 1200 if q else 25000, "small": 1}, timeout=3000)
-    out += sw[24:36] if q else sw[20:36]
+    out += sw[4:36] if q else sw[0:40]
     st = jobs("os-debug", "c07", 60, c07_env, {"cases": 20 if q else 300, "storm": 1}, timeout=3000)
     out += st[40:43] if q else st[40:56]
     pr = jobs("os-debug", "c07", 80, None, {"cases": 8 if q else 120, "pair": 1}, timeout=3000)
-    out += pr[60:76]
+    out += pr[40:80]
     out += jobs("inproc-debug", "c07", 2 if q else 6, None, {"cases": 40 if q else 300}, timeout=3000)
     return out
 
